@@ -175,10 +175,27 @@ def prop_check(ctx, c, outs):
     return f"{c['label']}: {res}"
 
 
+def batch_check(ctx, c, outs):
+    """projecting many directions in one call gives, for each of them, what projecting it alone gives (no direction's
+    result may depend on which other directions share the call)"""
+    G, fs, n, m = sector_data(c["k"], c["role"])
+    vs = np.asarray(c["vs"], float).reshape(-1, 3)
+    whole = np.asarray(project_impl(G, vs), float).reshape(-1, 3)
+    if whole.shape != vs.shape:
+        return f"{c['label']}: {len(vs)} directions projected in one call give an array of shape {whole.shape}"
+    for i, v in enumerate(vs):
+        one = np.asarray(project_impl(G, [v])[0], float)
+        if not np.abs(whole[i] - one).max() <= 1e-12 * max(1.0, float(np.linalg.norm(v))):
+            return (f"{c['label']}: direction {v.tolist()} projects to {whole[i].tolist()} when projected together with "
+                    f"{len(vs) - 1} others but to {one.tolist()} alone")
+    return None
+
+
 SITES = {
     "sector_table": sites.Site("sector_table", "corr", table_check, table_lines),
     "proj_model": sites.Site("proj_model", "corr", proj_check, proj_lines),
     "projection": sites.Site("projection", "prop", prop_check),
+    "batch": sites.Site("batch", "prop", batch_check),
 }
 
 
@@ -250,13 +267,20 @@ def generate(ctx, status):
         ctx.count("sector_table/" + r["status"], ("tab", nm))
         yield "sector_table", dict(base)
         G, fs, n, m = sector_data(r["k"], r["role"])
+        batch = []
         for v, tag in directions(ctx.rng, n, per):
             c = dict(base, v=v)
             ctx.count(f"projection/{tag}", ("p", nm, tuple(v)), nontrivial=len(m) > 1)
             yield "projection", c
+            batch.append([float(x) for x in v])
+            if len(batch) % 3 == 0:   # a hair below / above the equator, same azimuth
+                L = float(np.linalg.norm(v)) or 1.0
+                batch.append([float(v[0]), float(v[1]), float(ctx.rng.choice([-5e-10, 5e-10, -2e-9, 0.0])) * L])
             if gi is not None and tag in ("random", "nonunit", "lattice"):
                 ctx.count(f"proj_model/{tag}", ("m", nm, tuple(v)), nontrivial=len(m) > 1)
                 yield "proj_model", c
+        ctx.count("batch", ("b", nm, tuple(batch[0])), nontrivial=len(m) > 1)
+        yield "batch", dict(base, vs=batch)
         ctx.sample({"site": "projection", "label": r["label"], "v": v})
 
 
